@@ -360,6 +360,7 @@ class Interp:
         self.class_cache = {}
         self.call_depth = 0
         self.call_stack = []
+        self.gen_stack = []
         self.max_depth = 80
         self.used_trusted = set()
         self.used_summaries = set()
@@ -802,6 +803,18 @@ class Interp:
             try:
                 if isinstance(fn.node, ast.Lambda):
                     return self.eval(fn.node.body, env, fn.module, fn.cls)
+                if _is_generator(fn.node):
+                    # generator functions are evaluated EAGERLY: the body runs to completion at call time and the
+                    # yielded values are returned as a list (assumption: finite, no interleaved side effects)
+                    out = GenList()
+                    self.gen_stack.append(out)
+                    try:
+                        self.exec_block(fn.node.body, env, fn.module, fn.cls, fn)
+                    except _Return:
+                        pass
+                    finally:
+                        self.gen_stack.pop()
+                    return out
                 try:
                     self.exec_block(fn.node.body, env, fn.module, fn.cls, fn)
                 except _Return as r:
@@ -1172,6 +1185,8 @@ class Interp:
             return False
         if isinstance(v, bool):
             return v
+        if isinstance(v, GenList):
+            return True
         if isinstance(v, (int, float, str, tuple, list, dict, set, frozenset)):
             return bool(v)
         if isinstance(v, SV):
@@ -1267,6 +1282,19 @@ class Interp:
         if self.truth(self.eval(e.test, env, mod, cls)):
             return self.eval(e.body, env, mod, cls)
         return self.eval(e.orelse, env, mod, cls)
+
+    def e_Yield(self, e, env, mod, cls):
+        if not self.gen_stack:
+            raise Unsupported("yield outside a generator frame")
+        self.gen_stack[-1].append(None if e.value is None else self.eval(e.value, env, mod, cls))
+        return None
+
+    def e_YieldFrom(self, e, env, mod, cls):
+        if not self.gen_stack:
+            raise Unsupported("yield from outside a generator frame")
+        for v in self.iterate(self.eval(e.value, env, mod, cls)):
+            self.gen_stack[-1].append(v)
+        return None
 
     def e_Lambda(self, e, env, mod, cls):
         defaults = [self.eval(d, env, mod, cls) for d in e.args.defaults]
@@ -1478,7 +1506,7 @@ class Interp:
         return out
 
     def e_GeneratorExp(self, e, env, mod, cls):
-        return self.e_ListComp(e, env, mod, cls)
+        return GenList(self.e_ListComp(e, env, mod, cls))
 
     def e_SetComp(self, e, env, mod, cls):
         return set(self.e_ListComp(e, env, mod, cls))
@@ -1491,6 +1519,32 @@ class Interp:
 
         self._comp(e.generators, env, mod, cls, emit)
         return out
+
+
+class GenList(list):
+    """eagerly evaluated generator / generator expression: a list that is TRUTHY even when empty (generator objects
+    always are); single-use exhaustion is not modelled"""
+
+
+_GEN_CACHE = {}
+
+
+def _is_generator(node):
+    k = id(node)
+    if k not in _GEN_CACHE:
+        found = False
+        if isinstance(node, (ast.FunctionDef, ast.AsyncFunctionDef)):
+            stack = list(node.body)
+            while stack:
+                n = stack.pop()
+                if isinstance(n, (ast.Yield, ast.YieldFrom)):
+                    found = True
+                    break
+                if isinstance(n, (ast.FunctionDef, ast.AsyncFunctionDef, ast.Lambda, ast.ClassDef)):
+                    continue
+                stack.extend(ast.iter_child_nodes(n))
+        _GEN_CACHE[k] = (found, node)
+    return _GEN_CACHE[k][0]
 
 
 class ExtMethod:
